@@ -153,14 +153,14 @@ Theorem C18_simplest_from_float_unlimited_unless_known : forall B md sig ex, 2 <
 Proof. exact simplest_from_float_asis_spec_unlimited. Qed.
 Print Assumptions C18_simplest_from_float_unlimited_unless_known.
 
-(** outside finding F04 (ulp >= 2) and except at normal powers of two (partial: see
-    Ratio/SimplestIeeeEq.v) the f32/f64 macro computes the specified optimum, for every format *)
-Theorem C18_simplest_from_ieee_unless_known_partial : forall mb eb bits, 1 <= mb ->
+(** outside finding F04 (ulp >= 2) the f32/f64 macro computes the specified optimum, for every
+    format with at least one mantissa bit and every bit pattern (incl. subnormals, powers of two,
+    both signs, infinities and NaN) *)
+Theorem C18_simplest_from_ieee_unless_known : forall mb eb bits, 1 <= mb ->
   known_ieee mb eb bits = false ->
-  (bits mod 2 ^ mb =? 0) && (2 <=? (bits / 2 ^ mb) mod 2 ^ eb) = false ->
   simplest_from_ieee_asis mb eb bits = simplest_from_ieee_spec mb eb bits.
-Proof. exact simplest_from_ieee_asis_spec_partial. Qed.
-Print Assumptions C18_simplest_from_ieee_unless_known_partial.
+Proof. exact simplest_from_ieee_asis_spec. Qed.
+Print Assumptions C18_simplest_from_ieee_unless_known.
 
 (** ** findings: the repaired defects stay refuted on the pinned bodies, the open ones on the as-is models *)
 Theorem C18_F01_is_simpler_than_pinned_refuted :
